@@ -496,6 +496,8 @@ sa_addr_port_from_str(sockaddr_storage_p addr,
 	if (0 == sa_addr_from_text__int(addr, ptm, ptm_end, 0))
 		return (0);
 	/* addr:port */
+	if ('/' == (*ptm) || '.' == (*ptm))
+		return (EINVAL); /* Unix path (too long): ':' is part of it, do not cut. */
 	pport = mem_rchr(ptm, (size_t)(ptm_end - ptm), ':'); /* Addr-port delimiter. */
 	if (NULL == pport || pport == ptm)
 		return (EINVAL);
@@ -532,6 +534,26 @@ sa_addr_to_str(const sockaddr_storage_t *addr, char *buf,
 			return (errno);
 		buf[(buf_size - 1)] = 0; /* Should be not nessesary. */
 		size_ret = strnlen(buf, buf_size);
+		/* RFC 5952: mixed notation only for well known prefixes, inet_ntop()
+		 * use it for (deprecated) IPv4-compatible ::/96: "::0.1.0.128" -> "::1:80". */
+		if (AF_INET6 == addr->ss_family &&
+		    NULL != memchr(buf, '.', size_ret) &&
+		    0 == memcmp(sin_addr, "\0\0\0\0\0\0\0\0\0\0\0\0", 12)) {
+			const uint8_t *a8 = ((const uint8_t*)sin_addr);
+			int rc;
+
+			if (0 != a8[12] || 0 != a8[13]) {
+				rc = snprintf(buf, buf_size, "::%x:%x",
+				    ((((unsigned)a8[12]) << 8) | a8[13]),
+				    ((((unsigned)a8[14]) << 8) | a8[15]));
+			} else {
+				rc = snprintf(buf, buf_size, "::%x",
+				    ((((unsigned)a8[14]) << 8) | a8[15]));
+			}
+			if (0 > rc)
+				return (EINVAL);
+			size_ret = (size_t)rc;
+		}
 		break;
 	default:
 		return (EAFNOSUPPORT);
